@@ -33,11 +33,41 @@ ASSUMPTIONS = [
 ]
 
 
-def _lookups(rng, world, ifaces, classes, regs_seen, n_regs, combos, arity3):
+def _conv(x):
+    return 0 if x is None else x
+
+
+def _key(op):
+    return (tuple(_conv(x) for x in op[2]), op[3], op[4])
+
+
+def _apply(net, op):
+    """net effect of a mutator on the generator's own picture of the live registrations"""
+    k = op[0]
+    if k == "register":
+        if op[5] is None:
+            net[op[1]].pop(_key(op), None)
+        else:
+            net[op[1]][_key(op)] = op[5][0]
+    elif k == "unregister":
+        cur = net[op[1]].get(_key(op))
+        if cur is not None and (op[5] is None or op[5][0] == cur):
+            del net[op[1]][_key(op)]
+
+
+def _other_value(rng, cur):
+    vid = rng.choice([x for x in range(1, 6) if x != cur])
+    return [vid, 1 if vid in (1, 2) else vid]
+
+
+def _block(rng, world, ifaces, regs_seen, n_regs, combos, arity3):
+    """The exhaustive lookup block of a case: built ONCE, replayed verbatim at several points of the
+    history, so that every key is looked up before and after the mutators in between."""
     rel = RC.Rel(world)
     pool = list(range(len(world["specs"])))
     ops = []
     names = [0, 0, 1, 2]
+    chosen = []
     for _ in range(combos):
         if regs_seen and rng.random() < 0.85:
             _req0, p0, n0 = rng.choice(regs_seen)
@@ -46,6 +76,7 @@ def _lookups(rng, world, ifaces, classes, regs_seen, n_regs, combos, arity3):
         else:
             p, nm = rng.choice(ifaces + [0]), rng.choice(names)
         r = n_regs - 1 if rng.random() < 0.6 else rng.randrange(n_regs)
+        chosen.append((r, p, nm))
         ops.append(["lookup", r, [], p, nm])
         for a in pool:
             if rng.random() < 0.5:
@@ -61,7 +92,7 @@ def _lookups(rng, world, ifaces, classes, regs_seen, n_regs, combos, arity3):
     for _ in range(arity3):
         if three and rng.random() < 0.8:
             req0, p0, n0 = rng.choice(three)
-            req = [rng.choice(rel.descendants(0 if x is None else x)) for x in req0]
+            req = [rng.choice(rel.descendants(_conv(x))) for x in req0]
             p = rng.choice([x for x in rel.ancestors(p0) if x in ifaces or x == 0])
             nm = n0
         else:
@@ -70,7 +101,59 @@ def _lookups(rng, world, ifaces, classes, regs_seen, n_regs, combos, arity3):
         ops.append(["lookup", rng.randrange(n_regs), req, p, nm])
     for t in rng.sample(regs_seen, min(len(regs_seen), 6)):
         ops.append(["registered", rng.randrange(n_regs), t[0], t[1], t[2]])
-    return ops
+    return ops, chosen
+
+
+def _users(head):
+    """users[r] = registries whose resolution order contains r (r itself and its sub-registries)"""
+    anc = []
+    for r, op in enumerate(head):
+        a = {r}
+        for b in op[2]:
+            a |= anc[b]
+        anc.append(a)
+    return [[x for x in range(len(head)) if r in anc[x]] for r in range(len(head))]
+
+
+def _respell(rng, req):
+    """an equivalent spelling of the required key: None <-> Interface"""
+    return [(None if rng.random() < 0.5 else 0) if _conv(x) == 0 and rng.random() < 0.4 else x for x in req]
+
+
+def _churn_mutation(rng, net, removed, prefer):
+    """one mutator aimed at a key that is (or just was) live: overwrite with another value, unregister,
+    or re-register a key removed earlier.  [prefer] restricts the registries when possible."""
+    live = [(r, k) for r in range(len(net)) for k in net[r]]
+    pick = [x for x in live if x[0] in prefer] or live
+    kind = rng.choice(["overwrite", "overwrite", "overwrite", "unregister", "reregister"])
+    if kind == "reregister" and removed:
+        r, k = rng.choice(removed)
+        return ["register", r, _respell(rng, list(k[0])), k[1], k[2], _other_value(rng, 0)]
+    if not pick:
+        return None
+    r, k = rng.choice(pick)
+    if kind == "unregister":
+        removed.append((r, k))
+        v = None if rng.random() < 0.5 else [net[r][k], 1 if net[r][k] in (1, 2) else net[r][k]]
+        return ["unregister", r, _respell(rng, list(k[0])), k[1], k[2], v]
+    return ["register", r, _respell(rng, list(k[0])), k[1], k[2], _other_value(rng, net[r][k])]
+
+
+def _around(rng, world, ifaces, users, mut, extra):
+    """lookups that resolve to the key a mutator touches: the key itself and keys below it, asked for
+    the provided interface and for its generalisations, on the registry and on its sub-registries"""
+    rel = RC.Rel(world)
+    r0, req, p, nm = mut[1], [_conv(x) for x in mut[2]], mut[3], mut[4]
+    out = []
+    for j in range(extra):
+        rl = rng.choice(users[r0])
+        lreq = list(req) if j == 0 else [rng.choice(rel.descendants(x)) for x in req]
+        lp = p if j % 2 == 0 else rng.choice([x for x in rel.ancestors(p) if x in ifaces or x == 0])
+        if len(lreq) == 1 and rng.random() < 0.5:
+            out.append(["lookup1", rl, lreq[0], lp, nm])
+        else:
+            out.append(["lookup", rl, lreq, lp, nm])
+    return out
 
 
 SHAPES = [(3, 0), (4, 0), (5, 0), (6, 0), (3, 2), (4, 2), (3, 3), (5, 0), (4, 2)]
@@ -88,20 +171,43 @@ def gen_case(rng, big=False):
                  "registered": 0, "subscribed": 0, "allRegistrations": 0, "allSubscriptions": 0,
                  "queryAdapter": 0, "adapter_hook": 0, "queryMultiAdapter": 0, "subscribers": 0})
     head, body = muts[:n_regs], muts[n_regs:]
+    users = _users(head)
     cut = (2 * len(body)) // 3
-    seen1 = [(op[2], op[3], op[4]) for op in body[:cut] if op[0] == "register"]
-    seen2 = [(op[2], op[3], op[4]) for op in body if op[0] == "register"]
+    seen = [(op[2], op[3], op[4]) for op in body[:cut] if op[0] == "register"]
+    net = [dict() for _ in range(n_regs)]
+    for op in body[:cut]:
+        _apply(net, op)
+    block, chosen = _block(rng, world, ifaces, seen, n_regs, 3 if big else 2, 30 if big else 16)
     ops = list(head) + body[:cut]
-    ops += _lookups(rng, world, ifaces, classes, seen1, n_regs, 1, 8)
+    # 1. the block, ONE mutator of a key the block resolves to, the SAME block again
+    ops += block
+    removed = []
+    prefer = {b for (r, _p, _n) in chosen for b in range(n_regs) if r in users[b]}
+    m = _churn_mutation(rng, net, removed, prefer)
+    if m is not None:
+        _apply(net, m)
+        ops.append(m)
+        ops += block
+    # 2. churn: lookups around a key, one mutator of that key, the same lookups again
+    for _ in range(8 if big else 6):
+        m = _churn_mutation(rng, net, removed, set(range(n_regs)))
+        if m is None:
+            break
+        around = _around(rng, world, ifaces, users, m, 5)
+        ops += around
+        ops.append(m)
+        _apply(net, m)
+        ops += around
+    # 3. the rest of the history, then the same block a last time
     ops += body[cut:]
-    ops += _lookups(rng, world, ifaces, classes, seen2, n_regs, 3 if big else 2, 40 if big else 25)
+    ops += block
     world["ops"] = ops
     return world
 
 
 def generate(run, tier):
     rng = run.rng("gen")
-    n = 200 if tier == "quick" else 1500
+    n = 200 if tier == "quick" else 1200
     return [gen_case(rng, big=(tier != "quick")) for _ in range(n)]
 
 
